@@ -98,13 +98,17 @@ tommy_inline void hashlin_grow_step(tommy_hashlin* hashlin)
 		if (hashlin->state == TOMMY_HASHLIN_STATE_STABLE) {
 			tommy_hashlin_node** segment;
 
+			/* allocate the new vector using malloc() and not calloc() */
+			/* because data is fully initialized in the split process */
+			segment = tommy_cast(tommy_hashlin_node**, tommy_malloc(hashlin->bucket_max * sizeof(tommy_hashlin_node*)));
+
+			/* without memory the table keeps its size, the next insertion tries again */
+			if (!segment)
+				return;
+
 			/* set the lower size */
 			hashlin->low_max = hashlin->bucket_max;
 			hashlin->low_mask = hashlin->bucket_mask;
-
-			/* allocate the new vector using malloc() and not calloc() */
-			/* because data is fully initialized in the split process */
-			segment = tommy_cast(tommy_hashlin_node**, tommy_malloc(hashlin->low_max * sizeof(tommy_hashlin_node*)));
 
 			/* store it adjusting the offset */
 			/* cast to ptrdiff_t to ensure to get a negative value */
